@@ -256,6 +256,12 @@ func (e *Emitter) emitScriptStatement(scriptStmt *ast.ScriptStatement, textLabel
 			if !ok {
 				return "", errors.New("could not emit 'break' statement because its return point is unknown")
 			}
+			if !curChunk.isLastStatement(i) {
+				// Statements after a break are unreachable except through labels, so keep
+				// them in their own chunk rather than eliminating those labels.
+				chunkCounter++
+				remainingChunks = append(remainingChunks, curChunk.createPostLogicChunk(chunkCounter, i))
+			}
 			completeChunk := &chunk{
 				id:             curChunk.id,
 				returnID:       curChunk.returnID,
